@@ -24,6 +24,8 @@ def run(chk):
     hobl.c01_callback_existing(chk, ex)
     from . import state_contracts
     state_contracts.lookup_faithful(chk)
+    from . import lockset
+    lockset.lock_discipline(chk, "C01", ["operations"])    # the record a lookup returns is read under the lock that the merge of responses takes
     state_contracts.merge_all_pages(chk)
     from . import wrapper_contracts, batcher
     wrapper_contracts.wrapper_obligations(chk, "C01", want=("C01",))
